@@ -22,6 +22,10 @@
 #include <kernel/solver/ssor_precond.hpp>
 #include <kernel/solver/chebyshev.hpp>
 #include <kernel/solver/fgmres.hpp>
+#include <kernel/solver/gmres.hpp>
+#include <kernel/solver/rgcr.hpp>
+#include <kernel/solver/idrs.hpp>
+#include <kernel/solver/bicgstabl.hpp>
 #include <kernel/solver/bicgstab.hpp>
 #include <cmath>
 #include <memory>
@@ -283,6 +287,11 @@ static void solve_with_filter(const std::string& kind, const QMat& a, const Filt
     Logged<Solver::Chebyshev<QMat, Filter_>> s(a, filter, Q(1) / Q(2), omega);
     run_session(s, pre.get(), g, n, c, o);
   }
+  else if(kind == "rgcr")
+  {
+    Logged<Solver::RGCR<QMat, Filter_>> s(a, filter, anypre);
+    run_session(s, pre.get(), g, n, c, o);
+  }
   else if(kind == "bicgstab")
   {
     Logged<Solver::BiCGStab<QMat, Filter_>> s(a, filter, anypre);
@@ -450,6 +459,141 @@ static void op_solved(Cur& c, std::ostream& o)
   std::cout.rdbuf(old);
 }
 
+// ------------------------------------------------------------------------------------------------------------------
+// sessiond: life-cycle sessions at double on ONE object of ANY iterative solver class that instantiates on
+// DenseVector/SparseMatrixCSR, each solve repeated on a BRAND-NEW object (differential oracle inside FEAT).
+//   steps: S init_symbolic | N init_numeric | E done_numeric | D done_symbolic | R done()+init() |
+//          M k (copy the values of matrix k into the system matrix; only between E and N) | a x0 b | c x0 b
+// ------------------------------------------------------------------------------------------------------------------
+
+typedef Solver::IterativeSolver<DVec> DIter;
+
+template<typename Filter_>
+static std::shared_ptr<DIter> make_dsolver(const std::string& kind, const DMat& a, const Filter_& f, double omega,
+  std::shared_ptr<Solver::SolverBase<DVec>> pre)
+{
+  if(kind == "pcg") return std::make_shared<Solver::PCG<DMat, Filter_>>(a, f, pre);
+  if(kind == "pcr") return std::make_shared<Solver::PCR<DMat, Filter_>>(a, f, pre);
+  if(kind == "pmr") return std::make_shared<Solver::PMR<DMat, Filter_>>(a, f, pre);
+  if(kind == "pcgnr") return std::make_shared<Solver::PCGNR<DMat, Filter_>>(a, f, pre, pre);
+  if(kind == "rich") return std::make_shared<Solver::Richardson<DMat, Filter_>>(a, f, omega, pre);
+  if(kind == "bicgstab") return std::make_shared<Solver::BiCGStab<DMat, Filter_>>(a, f, pre);
+  if(kind == "bicgstabl") return std::make_shared<Solver::BiCGStabL<DMat, Filter_>>(a, f, 2, pre);
+  if(kind == "fgmres") return std::make_shared<Solver::FGMRES<DMat, Filter_>>(a, f, Index(3), 0.0, pre);
+  if(kind == "gmres") return std::make_shared<Solver::GMRES<DMat, Filter_>>(a, f, Index(3), 0.0, pre);
+  if(kind == "rgcr") return std::make_shared<Solver::RGCR<DMat, Filter_>>(a, f, pre);
+  if(kind == "idrs")
+  {
+    // the default shadow space is seeded with time(nullptr); the deterministic variant (seed = rank) is used here
+    auto s = std::make_shared<Solver::IDRS<DMat, Filter_>>(a, f, Index(2), pre);
+    s->reset_shadow_space(false);
+    return s;
+  }
+  if(kind == "cheb") return std::make_shared<Solver::Chebyshev<DMat, Filter_>>(a, f, 0.5, omega);
+  std::cerr << "\n>>> FATAL ERROR: harness: unknown solver kind\n"; std::abort();
+}
+
+struct DCfg { double v[6]; Index mi, ma, ms, skip; };
+
+static void apply_dcfg(DIter& s, const DCfg& g)
+{
+  s.set_tol_rel(g.v[0]); s.set_tol_abs(g.v[1]); s.set_tol_abs_low(g.v[2]);
+  s.set_div_rel(g.v[3]); s.set_div_abs(g.v[4]); s.set_stag_rate(g.v[5]);
+  s.set_min_iter(g.mi); s.set_max_iter(g.ma); s.set_min_stag_iter(g.ms); s.skip_defect_calc(g.skip != 0);
+}
+
+static void show_dresult(std::ostream& o, const char* tag, Solver::Status st, const DIter& s, const DVec& x, Index n)
+{
+  o << tag << " " << status_code(st) << " " << s.get_num_iter() << " " << show_dbl(s.get_def_initial()) << " "
+    << show_dbl(s.get_def_final()) << " " << n;
+  for(Index i = 0; i < n; ++i) o << " " << show_dbl(x(i));
+}
+
+template<typename Filter_>
+static void sessiond_with_filter(const std::string& kind, DMat& a, const std::vector<std::vector<double>>& mats,
+  const Filter_& filter, Cur& c, std::ostream& o, Index n)
+{
+  std::string pk = c.str();
+  double pw = (pk == "jac") ? read_near(c) : 0.0;
+  auto make_pre = [&]() -> std::shared_ptr<Solver::SolverBase<DVec>> {
+    if(pk == "jac") return Solver::new_jacobi_precond(a, filter, pw);
+    return nullptr; };
+  DCfg g;
+  for(int i = 0; i < 6; ++i) g.v[i] = read_near(c);
+  g.mi = c.idx(); g.ma = c.idx(); g.ms = c.idx(); g.skip = c.idx();
+  double omega = read_near(c);
+  std::shared_ptr<DIter> s = make_dsolver(kind, a, filter, omega, make_pre());
+  apply_dcfg(*s, g);
+  Index nsteps = c.idx();
+  bool first = true;
+  for(Index k = 0; k < nsteps; ++k)
+  {
+    std::string st = c.str();
+    if(st == "S") s->init_symbolic();
+    else if(st == "N") s->init_numeric();
+    else if(st == "E") s->done_numeric();
+    else if(st == "D") s->done_symbolic();
+    else if(st == "R") { s->done(); s->init(); }
+    else if(st == "M")
+    {
+      const std::vector<double>& m = mats.at(c.idx());
+      double* v = a.val();
+      for(Index i = 0; i < n * n; ++i) v[i] = m[i];
+    }
+    else
+    {
+      DVec x(n), b(n), xf(n);
+      std::vector<double> b0(n);
+      for(Index i = 0; i < n; ++i) { double t = read_exact(c); x(i, t); xf(i, t); }
+      for(Index i = 0; i < n; ++i) { b0[i] = read_exact(c); b(i, b0[i]); }
+      Solver::Status r = (st == "a") ? s->apply(x, b) : s->correct(x, b);
+      bool rhs_ok = true;
+      for(Index i = 0; i < n; ++i) rhs_ok = rhs_ok && (b(i) == b0[i]);
+      // the same system on a brand-new object
+      std::shared_ptr<DIter> f = make_dsolver(kind, a, filter, omega, make_pre());
+      apply_dcfg(*f, g);
+      f->init();
+      Solver::Status rf = (st == "a") ? f->apply(xf, b) : f->correct(xf, b);
+      if(!first) o << " | ";
+      first = false;
+      show_dresult(o, "R", r, *s, x, n);
+      o << " " << (rhs_ok ? 1 : 0) << " " << status_code(s->get_status()) << " ";
+      show_dresult(o, "F", rf, *f, xf, n);
+      f->done();
+    }
+  }
+}
+
+static void op_sessiond(Cur& c, std::ostream& o)
+{
+  std::ostringstream sink;
+  std::streambuf* old = std::cout.rdbuf(sink.rdbuf());
+  std::string kind = c.str();
+  Index n = c.idx();
+  Index nm = c.idx();
+  std::vector<std::vector<double>> mats(nm, std::vector<double>(n * n));
+  for(auto& m : mats) for(auto& v : m) v = read_exact(c);
+  // full structure (zeros stored) so that the values can be exchanged in place
+  DVec v_val(n * n); IVec v_col(n * n); IVec v_ptr(n + 1);
+  for(Index i = 0; i < n; ++i)
+  {
+    v_ptr(i, i * n);
+    for(Index j = 0; j < n; ++j) { v_val(i * n + j, mats[0][i * n + j]); v_col(i * n + j, j); }
+  }
+  v_ptr(n, n * n);
+  DMat a(n, n, v_col, v_val, v_ptr);
+  std::string fk = c.str();
+  if(fk == "none") { DNone filter; sessiond_with_filter(kind, a, mats, filter, c, o, n); }
+  else
+  {
+    DUnit filter(n);
+    auto idx = c.idxlist();
+    for(auto i : idx) filter.add(Index(i), 0.0);
+    sessiond_with_filter(kind, a, mats, filter, c, o, n);
+  }
+  std::cout.rdbuf(old);
+}
+
 static void handle(const verif::Tokens& t, std::ostream& o)
 {
   Cur c(t);
@@ -457,6 +601,7 @@ static void handle(const verif::Tokens& t, std::ostream& o)
   if(op == "ctl") op_ctl(c, o);
   else if(op == "solve") op_solve(c, o);
   else if(op == "solved") op_solved(c, o);
+  else if(op == "sessiond") op_sessiond(c, o);
   else o << "BAD-OP";
 }
 
